@@ -995,7 +995,9 @@ def object_fit(keyword):
 @single_token
 def image_resolution(token):
     # TODO: support 'snap' and 'from-image'
-    return get_resolution(token)
+    resolution = get_resolution(token)
+    if resolution is not None and resolution > 0:
+        return resolution
 
 
 @property('letter-spacing')
